@@ -671,6 +671,34 @@ def rule_kdf(ctx, P: str = "C09") -> None:
                "; ".join(probs[:2])[:500], "", A.loc(KDF, kd.node))
 
 
+def rule_hash_update_int(ctx) -> None:
+    """C09.hash-update-int: Hash.update_int(value) feeds the integer "as is": exactly the minimal big-endian bytes of |value| reach the
+    digest (what get_hash of the same bytes sees), for values on both sides of every byte boundary."""
+    kcls = ctx.cls(HASH, "Hash")
+    fn = ctx.own(HASH, "Hash", "update_int")
+    sym_map = {"Endianness.LITTLE": ordereval.Obj(value="little"), "Endianness.BIG": ordereval.Obj(value="big")}
+    probs = []
+    vals = [0, 1, 0x7F, 0x80, 0xFF, 0x100, 0x7FFF, 0x8000, 0xFFFF, 0x10000, (1 << 255) - 1, 1 << 255, (1 << 256) - 1, 1 << 256, -5, -0x80]
+    for v in vals:
+        fed: List[bytes] = []
+
+        def leaves(c: ast.Call, ev, fed=fed):
+            if norm(c.func) == "self.hash_obj.update" and len(c.args) == 1:
+                fed.append(bytes(ev.ev(c.args[0])))
+                return None
+            return roundtrip.std_leaves(c, ev)
+        me = ordereval.Obj(_cls=kcls, hash_obj=ordereval.Obj(_h=True))
+        try:
+            out = ordereval.Evaluator({"self": me, "value": v}, ctx.fold_sym(fn, sym_map), opaque_return=False, call_value=ctx.model_calls(leaves, sym_map, classes={"Hash": kcls})).run(A.body_of(fn.node))
+        except ordereval.Unsupported as ex:
+            raise AnalysisError(f"C09.hash-update-int: {fn.qual} left the fragment: {ex}")
+        want = abs(v).to_bytes((abs(v).bit_length() + 7) // 8, "big")
+        if out.kind == "raise" or b"".join(fed) != want:
+            probs.append(f"value {v:#x}: digest is fed {b''.join(fed).hex()[:24] or '(nothing)'}{'...' if len(b''.join(fed)) > 12 else ''} ({len(b''.join(fed))} bytes), the integer is {want.hex()[:24] or '(empty)'} ({len(want)} bytes)")
+    ctx.chk.analysed(fn.qual)
+    ctx.chk.decide(not probs, "C09.hash-update-int", fn.qual, f"the digest sees the minimal big-endian bytes of |value| ({len(vals)} values around the byte boundaries)", "; ".join(probs[:3])[:600], "", A.loc(HASH, fn.node))
+
+
 def rule_counter(ctx) -> None:
     chk = ctx.chk
     M = 1 << 32
@@ -751,6 +779,7 @@ def run(ctx) -> None:
     ctx.rule(rule_keystore)
     ctx.rule(rule_kdf)
     ctx.rule(rule_counter)
+    ctx.rule(rule_hash_update_int)
     ctx.chk.assumptions = ["the `cryptography` and `crcmod` primitives implement their standards; their documented constants (block/key sizes) are as tabulated",
                            "not decided: ciphertext/digest values, equality with independent implementations"]
 
